@@ -135,6 +135,10 @@ class C18(Check):
             sc["cold"] = rng.random() < 0.5
             if kind == "http":
                 sc["flat"] = rng.random() < 0.6    # deep => nginx rules
+        if kind in ("file", "sharded"):
+            # cold handle: accessor/PrecomputedIO created fault-free before
+            # the fault window and kept for a retry after the faults stop
+            sc["cold"] = rng.random() < 0.4
         if op == "pyramid":
             # the pyramid code needs new chunk = 1 or 2 half-chunks
             sc["cs"] = rng.choice([2, 4, 8])
@@ -198,6 +202,10 @@ class C18(Check):
 
     # ------------------------------------------------------------------
     def _make_op(self, sc, opd, info, model, files):
+        op = self._make_op_inner(sc, opd, info, model, files)
+        return op
+
+    def _make_op_inner(self, sc, opd, info, model, files):
         """Return (label, target, callable(fs) -> value, expected-after)
         The callable runs entirely through real repo code."""
         from sim import dsutil
@@ -213,9 +221,30 @@ class C18(Check):
         labels = 5 if sc["enc"] == "compressed_segmentation" else None
         opts = _acc_opts(sc) if sc["kind"] == "file" else {}
 
-        def open_pio():
+        holder = {}
+        cold = bool(sc.get("cold"))
+
+        def open_acc():
+            if cold and "acc" in holder:
+                return holder["acc"]
             acc = get_accessor_for_url(DS, dict(opts))
-            return acc, precomputed_io.get_IO_for_existing_dataset(acc)
+            if cold:
+                holder["acc"] = acc
+            return acc
+
+        def open_pio():
+            if cold and "pio" in holder:
+                return holder["acc"], holder["pio"]
+            acc = open_acc()
+            pio = precomputed_io.get_IO_for_existing_dataset(acc)
+            if cold:
+                holder["pio"] = pio
+            return acc, pio
+
+        def prepare():
+            holder.clear()
+            if cold:
+                open_pio()
 
         if name in ("write_existing", "write_new"):
             if name == "write_existing":
@@ -230,7 +259,7 @@ class C18(Check):
             def run():
                 acc, pio = open_pio()
                 pio.write_chunk(arr, key, co)
-            return dict(label=name, run=run, target=("chunk", (key, co)),
+            return dict(prepare=prepare, holder=holder, label=name, run=run, target=("chunk", (key, co)),
                         new=arr, is_store=True)
         if name in ("store_file_new", "store_file_overwrite"):
             fname = "mesh/sub/frag.bin" if name.endswith("new") else "aux.bin"
@@ -238,9 +267,9 @@ class C18(Check):
             ow = name.endswith("overwrite")
 
             def run():
-                acc = get_accessor_for_url(DS, dict(opts))
+                acc = open_acc()
                 acc.store_file(fname, buf, overwrite=ow)
-            return dict(label=name, run=run, target=("file", fname), new=buf,
+            return dict(prepare=prepare, holder=holder, label=name, run=run, target=("file", fname), new=buf,
                         is_store=True)
         if name == "store_chunk_noow_existing":
             # a store that fails *naturally* (EEXIST): no permission to
@@ -249,17 +278,17 @@ class C18(Check):
             buf = payload(sc["salt"] + 5, 300)
 
             def run():
-                acc = get_accessor_for_url(DS, dict(opts))
+                acc = open_acc()
                 acc.store_chunk(buf, "s0", co, overwrite=False)
-            return dict(label=name, run=run, target=("chunk", ("s0", co)),
+            return dict(prepare=prepare, holder=holder, label=name, run=run, target=("chunk", ("s0", co)),
                         new=None, is_store=True, must_fail=True)
         if name == "store_file_noow_existing":
             buf = payload(sc["salt"] + 6, 900)
 
             def run():
-                acc = get_accessor_for_url(DS, dict(opts))
+                acc = open_acc()
                 acc.store_file("aux.bin", buf, overwrite=False)
-            return dict(label=name, run=run, target=("file", "aux.bin"),
+            return dict(prepare=prepare, holder=holder, label=name, run=run, target=("file", "aux.bin"),
                         new=buf, is_store=True, must_fail=True)
         if name in ("read_chunk", "read_absent"):
             if name == "read_chunk":
@@ -270,28 +299,28 @@ class C18(Check):
             def run():
                 acc, pio = open_pio()
                 return pio.read_chunk(key, co)
-            return dict(label=name, run=run, target=("chunk", (key, co)),
+            return dict(prepare=prepare, holder=holder, label=name, run=run, target=("chunk", (key, co)),
                         is_store=False,
                         expect=model.get((key, co)))
         if name == "read_all":
             def run():
                 acc, pio = open_pio()
                 return [pio.read_chunk("s0", co) for co in grid0]
-            return dict(label=name, run=run, target=None, is_store=False,
+            return dict(prepare=prepare, holder=holder, label=name, run=run, target=None, is_store=False,
                         expect=[model[("s0", co)] for co in grid0])
         if name == "fetch_file":
             def run():
-                acc = get_accessor_for_url(DS, dict(opts))
+                acc = open_acc()
                 return acc.fetch_file("aux.bin")
-            return dict(label=name, run=run, target=("file", "aux.bin"),
+            return dict(prepare=prepare, holder=holder, label=name, run=run, target=("file", "aux.bin"),
                         is_store=False, expect=files["aux.bin"])
         if name in ("file_exists", "file_exists_absent"):
             fname = "aux.bin" if name == "file_exists" else "nothing.bin"
 
             def run():
-                acc = get_accessor_for_url(DS, dict(opts))
+                acc = open_acc()
                 return acc.file_exists(fname)
-            return dict(label=name, run=run, target=("file", fname),
+            return dict(prepare=prepare, holder=holder, label=name, run=run, target=("file", fname),
                         is_store=False, expect=(name == "file_exists"),
                         is_probe=True)
         if name == "pyramid":
@@ -315,7 +344,7 @@ class C18(Check):
             def run():
                 acc, pio = open_pio()
                 dyadic_pyramid.compute_dyadic_scales(pio, ds)
-            return dict(label=name, run=run, target=("scale", "s1"),
+            return dict(prepare=prepare, holder=holder, label=name, run=run, target=("scale", "s1"),
                         new=want, is_store=True)
         if name == "session":
             import random
@@ -326,18 +355,21 @@ class C18(Check):
                     for co in grid1}
 
             def run():
+                holder.pop("closing", None)
                 if opd["via_url"]:
                     acc = get_accessor_for_url(DS)
                 else:
                     acc = ShardedFileAccessor(DS, strategy=sc["strategy"])
+                holder["session_acc"] = acc
                 pio = precomputed_io.get_IO_for_existing_dataset(acc)
                 for i in order:
                     pio.write_chunk(arrs[grid1[i]], "s1", grid1[i])
+                holder["closing"] = True
                 # the CLI relies on the accessor's exit handler; accessors
                 # without one (plain files) have nothing to flush
                 if hasattr(acc, "close"):
                     acc.close()
-            return dict(label=name, run=run, target=("scale", "s1"),
+            return dict(prepare=prepare, holder=holder, label=name, run=run, target=("scale", "s1"),
                         new=arrs, is_store=True)
         raise HarnessError(f"unknown op {name}")
 
@@ -366,11 +398,14 @@ class C18(Check):
         fs = base.clone(log)
         fs.track_sites = True
         with mounted(fs):
+            op["prepare"]()
             fs.begin_window(record=True)
             st, v = sut(op["run"])
             calls = list(fs.calls)
             fs.end_window()
         steps += fs.total_calls
+        base_tree = base.tree_hash(DS)
+        cold_file = bool(sc.get("cold")) and sc["kind"] == "file"
         expect_absent = op["label"] == "read_absent"
         if op.get("must_fail"):
             from neuroglancer_scripts.accessor import (
@@ -483,6 +518,7 @@ class C18(Check):
             narrow = {"faults": plan}
             crashed = False
             with mounted(fs):
+                op["prepare"]()
                 # resolve fractional short/torn sizes lazily in the FS
                 fs.begin_window(_resolve_fractions(pl), record=True)
                 try:
@@ -546,6 +582,44 @@ class C18(Check):
                     else:
                         res.probe("normal_return_effect_in_place")
 
+                # ---------- retries through the same handle ----------------
+                retried = None
+                if st == "exc" and not crashed and op["is_store"]:
+                    if (op["label"] == "session"
+                            and op["holder"].get("closing")):
+                        # close() failed: a second close() on the same
+                        # accessor may fail again, but if it returns normally
+                        # everything must be in place (judged below)
+                        s_r, v_r = sut(op["holder"]["session_acc"].close)
+                        retried = ("close", s_r)
+                        res.probe("retried_close_" + (
+                            "ok" if s_r == "ok" else excname(v_r)))
+                    elif cold_file and fs.tree_hash(DS) == base_tree:
+                        # the failed attempt left no trace: the same handle,
+                        # the same request and the same stored state must now
+                        # behave like the fault-free reference
+                        s_r, v_r = sut(op["run"])
+                        retried = ("same", s_r)
+                        want_ok = not op.get("must_fail")
+                        if (s_r == "ok") != want_ok or (
+                                want_ok and fs.tree_hash(DS) != ref_tree):
+                            res.violate(
+                                "C18/handle-poisoned-by-failure",
+                                f"{where}: the failed attempt left the "
+                                "stored state untouched, yet repeating the "
+                                "request through the same accessor (no "
+                                "fault) "
+                                + (f"raises {excname(v_r)}: {v_r!s:.80}"
+                                   if s_r == "exc" else
+                                   "does not produce the reference result"),
+                                key=f"C18/handle-poisoned/{sc['kind']}/"
+                                f"{op['label']}", narrow=narrow)
+                        else:
+                            res.probe("same_handle_retry_consistent")
+                        if s_r == "ok" and want_ok:
+                            st = "ok"     # judge the final state as a success
+                if retried and retried[0] == "close" and retried[1] == "ok":
+                    st = "ok"             # close() claimed success
                 # ---------- what a fresh process finds ----------------------
                 after = dsutil.read_dataset(
                     DS, info, which=sorted(model) + (
